@@ -205,6 +205,12 @@ def run_workers(binary, prop, seed, tier, ncases, budget, extra=None, samples=2)
             elif p.returncode == 66 or "WARNING: DATA RACE" in etxt:
                 cls = "data-race"
             detail = summarize_death(etxt, p.returncode)
+            if cls == "process-died" and harness_only_panic(etxt):
+                # a Go panic whose goroutine has no frame of the library: a defect of the harness itself
+                # (oracle arithmetic, index error): never a verdict about the property
+                with lock:
+                    errs.append("worker %d: the harness itself panicked in case %d (no library frame in the panicking goroutine)\n%s" % (i, started, etxt[-3000:]))
+                return
             with lock:
                 results.append({"prop": prop, "i": started, "v": "fail", "class": cls, "detail": detail, "feat": death_feat(etxt), "ev": 0, "tasks": 0, "nt": True, "tape": None, "tl": 0, "stderr": etxt[-6000:],
                                 "context": {"from": frm, "step": w}})
@@ -228,6 +234,34 @@ def summarize_death(etxt, rc):
     key = [l for l in lines if l.startswith("panic:") or l.startswith("fatal error:") or "DATA RACE" in l or l.startswith('{"hang"')]
     head = key[0] if key else (lines[0] if lines else "")
     return ("worker process ended with exit status %s: %s" % (rc, head))[:500]
+
+
+def harness_only_panic(etxt):
+    """True iff the output is a Go panic (not a fatal error, not a signal) and the stack of the panicking
+    goroutine - the first one printed - contains no function of the library under test."""
+    lines = etxt.splitlines()
+    start = None
+    for j, l in enumerate(lines):
+        if l.startswith("panic:"):
+            start = j
+            break
+    if start is None or any(l.startswith("fatal error:") for l in lines):
+        return False
+    g = None
+    for j in range(start, len(lines)):
+        if lines[j].startswith("goroutine "):
+            g = j
+            break
+    if g is None:
+        return False
+    frames = []
+    for l in lines[g + 1:]:
+        if not l.strip():
+            break
+        frames.append(l)
+    if not frames:
+        return False
+    return not any("kanzi-go/v2/" in l and "verifharness" not in l for l in frames)
 
 
 def death_feat(etxt):
@@ -569,7 +603,7 @@ RULES = {
     "C19": GEN + "a case is one file tree + option set + family (round trip / safety / kill points / sink failure) and several runs of the real CLI; kill-point cases first run fault-free under the in-process scheduler to count the events, then re-run with a self-SIGKILL at each chosen event (every event when the run has <= 120 events); simulated_events counts the events of all CLI runs; distinct = distinct (family, options, tree size) signatures",
     "C08": GEN + "a case is one scenario plus one simulated execution per sink/source call index of its fault-free run (evaluations = executions); non-trivial = the scenario makes at least one sink/source call; distinct = distinct (configuration signature, schedule signature) pairs",
     "C09": GEN + "a case is one valid stream plus one simulated decode per cut position (evaluations = decodes); every cut of streams <= 4 KiB in a quarter of the cases; distinct = distinct (configuration signature, schedule signature) pairs of cases with at least one cut",
-    "C11": GEN + "a case is one stream of 0-12 blocks plus one simulated decode per block range (evaluations = decodes, all ranges 1<=from<=to<=blocks+3); distinct = distinct (configuration, schedule signature) pairs",
+    "C11": GEN + "a case is one stream of 0-12 blocks plus one simulated decode per block range (evaluations = decodes, all ranges 1<=from<=to<=blocks+3 plus three far-bound ranges); distinct = distinct (configuration, schedule signature) pairs",
     "C14": GEN + "a case is one bit-level operation program (write side, then mirrored or re-chunked read side); non-trivial = more than 64 bits written; distinct = distinct (buffer sizes, program hash) pairs; this property has no schedule dimension",
 }
 ASSUMPTIONS = {
@@ -589,7 +623,7 @@ EXPECTED_PROBES = {
     "C07": ["handoff.cancel.observed", "handoff.failed.tasks", "handoff.io.by.holder", "handoff.end.of.stream.task", "sink.fault.while.task.holds", "src.fault.while.task.holds"],
     "C08": ["fault.during.close", "fault.during.write", "src.fault.inside.block.task", "close.retry.delivered.everything", "fault.survived.complete.data"],
     "C09": ["exhaustive.streams", "cuts"],
-    "C11": ["range.empty", "range.beyond.end", "batch.all.skipped", "range.avoiding.damaged.blocks"],
+    "C11": ["range.empty", "range.beyond.end", "batch.all.skipped", "range.avoiding.damaged.blocks", "range.far.bound"],
     "C14": ["crosses.flush.boundary", "read.rechunked"],
     "C17": ["close.failed.then.retried", "close.repeated", "write.after.close.refused", "read.after.close.refused", "closed.without.data"],
 }
